@@ -258,12 +258,25 @@ def lazy_parallel_map(
         try:
             # First fill the buffer
             # If buffer full, take one element and push one new inside
-            for ele in generator:
+            generator_exception = None
+            iterator = iter(generator)
+            while True:
+                try:
+                    ele = next(iterator)
+                except StopIteration:
+                    break
+                except BaseException as e:
+                    # First deliver the buffered results that precede the
+                    # failing element, then reraise (see below).
+                    generator_exception = e
+                    break
                 if q.qsize() >= buffer_size:
                     yield result(q.get())
                 q.put(submit(executor, function, ele, *args, **kwargs))
             while not q.empty():
                 yield result(q.get())
+            if generator_exception is not None:
+                raise generator_exception
         except GeneratorExit:
             # A GeneratorExit will not stop the PoolExecutor,
             # i.e. the PoolExecutor will finish all calculations,
